@@ -27,3 +27,19 @@ Example C43_p255_invalid :
   let pl := repeat 255 44 ++ [0] ++ repeat 255 255 in
   wf_bytes pl = true /\ valid_padding pl = false /\ remove_padding pl = (firstn 299 pl, 0).
 Proof. exact C43_p255_invalid_lemma. Qed.
+
+(* The CBC branch of halfConn.decrypt (remover selected by protocol version; record accepted iff padding good and
+   the remainder is exactly content ‖ MAC): for every record with a valid MAC over its first clen bytes, TLS 1.0-1.2
+   accept exactly when the padding is valid (last byte p, final p+1 bytes all p) and covers exactly the bytes after
+   the MAC; SSLv3 (0x0300) checks the padding length only. *)
+Theorem C43_record_verdict : forall vers clen macSize full,
+  wf_bytes full = true -> Z.of_nat (length full) < 2^31 -> 0 <= clen -> 0 <= macSize ->
+  cbc_record_ok vers clen macSize full = spec_record_ok vers clen macSize full.
+Proof. exact cbc_record_ok_spec. Qed.
+Print Assumptions C43_record_verdict.
+
+Theorem C43_record_prop_of_model : forall vers clen full,
+  wf_bytes full = true -> Z.of_nat (length full) < 2^31 -> 0 <= clen ->
+  prop_C43 (VL [VZ 2; VZ vers; VZ clen; VB full]) (run_C43 (VL [VZ 2; VZ vers; VZ clen; VB full])) = true.
+Proof. exact prop_C43_record_of_model. Qed.
+Print Assumptions C43_record_prop_of_model.
